@@ -1,8 +1,11 @@
 package c03
 
 import (
+	"bytes"
 	"context"
+	"encoding/json"
 	"fmt"
+	"net/http/httptest"
 	"os"
 	"sort"
 	"strings"
@@ -11,6 +14,8 @@ import (
 
 	"github.com/99designs/gqlgen/graphql"
 	"github.com/99designs/gqlgen/graphql/executor"
+	"github.com/99designs/gqlgen/graphql/handler"
+	"github.com/99designs/gqlgen/graphql/handler/transport"
 	"github.com/99designs/gqlgen/graphql/handler/lru"
 	"github.com/vektah/gqlparser/v2/ast"
 	"github.com/vektah/gqlparser/v2/gqlerror"
@@ -43,6 +48,9 @@ type Case struct {
 	Cache      string    `json:"cache"` // none map lru2 lru1000
 	Requests   []Request `json:"requests"`
 	Goroutines int       `json:"goroutines"` // 0/1 = sequential
+	// Via: "" = the executor API directly; "post" = handler.Server with the POST transport, each
+	// request a JSON body that leaves out the members it does not need (operationName, variables)
+	Via string `json:"via,omitempty"`
 }
 
 type mutexCache struct {
@@ -83,8 +91,63 @@ func build(s *proj.Server, c Case) *executor.Executor {
 	return ex
 }
 
+func buildHTTP(s *proj.Server, c Case) *handler.Server {
+	h := handler.New(s.ES)
+	h.AddTransport(transport.POST{})
+	switch c.Cache {
+	case "map":
+		h.SetQueryCache(&mutexCache{m: graphql.MapCache[*ast.QueryDocument]{}})
+	case "lru2":
+		h.SetQueryCache(lru.New[*ast.QueryDocument](2))
+	case "lru1000":
+		h.SetQueryCache(lru.New[*ast.QueryDocument](1000))
+	}
+	if suggestOff {
+		h.SetDisableSuggestion(true)
+	}
+	for i, es := range c.Exts {
+		h.Use(newExt(es.Kind, &base{id: i, rejectParams: es.RejectParams, rejectCtx: es.RejectCtx}))
+	}
+	h.SetRecoverFunc(func(ctx context.Context, err any) error { return gqlerror.Errorf("%s", proj.RecoverMsg(err)) })
+	return h
+}
+
+// runHTTP sends one request as a POST body; members the request does not need are left out.
+func runHTTP(h *handler.Server, r Request) (evs []string, uevents []univ.Event, resp *graphql.Response, rejected bool) {
+	l := &reqLog{}
+	e := univ.NewExec(plan.New(11))
+	ctx := withLog(univ.WithExec(context.Background(), e), l)
+	body := map[string]any{"query": r.Query}
+	if r.OpName != "" {
+		body["operationName"] = r.OpName
+	}
+	if len(r.Variables) > 0 {
+		body["variables"] = r.Variables
+	}
+	b, _ := json.Marshal(body)
+	req := httptest.NewRequest("POST", "/graphql", bytes.NewReader(b)).WithContext(ctx)
+	req.Header.Set("Content-Type", "application/json")
+	w := httptest.NewRecorder()
+	h.ServeHTTP(w, req)
+	resp = &graphql.Response{}
+	var env struct {
+		Data   json.RawMessage `json:"data"`
+		Errors gqlerror.List   `json:"errors"`
+	}
+	_ = json.Unmarshal(w.Body.Bytes(), &env)
+	resp.Data, resp.Errors = env.Data, env.Errors
+	if string(resp.Data) == "null" {
+		resp.Data = nil
+	}
+	// over HTTP a rejection is what the client sees: errors only (the status depends on the kind of
+	// error and is C09's business) and nothing executed
+	uevents = e.Events()
+	rejected = len(resp.Data) == 0 && len(resp.Errors) > 0 && len(uevents) == 0
+	return l.snapshot(), uevents, resp, rejected
+}
+
 // run executes one request and returns its log, the resolver/directive events and the response.
-func run(s *proj.Server, ex *executor.Executor, r Request) (evs []string, uevents []univ.Event, resp *graphql.Response, rejected bool) {
+func runExecutor(s *proj.Server, ex *executor.Executor, r Request) (evs []string, uevents []univ.Event, resp *graphql.Response, rejected bool) {
 	l := &reqLog{}
 	e := univ.NewExec(plan.New(11))
 	ctx := withLog(univ.WithExec(context.Background(), e), l)
@@ -347,7 +410,15 @@ func check(c Case) *vfrun.Failure {
 		return vfrun.Failf("harness.no-project", "%v", err)
 	}
 	s := ss[0]
-	ex := build(s, c)
+	var run func(r Request) ([]string, []univ.Event, *graphql.Response, bool)
+	if c.Via == "post" {
+		h := buildHTTP(s, c)
+		run = func(r Request) ([]string, []univ.Event, *graphql.Response, bool) { return runHTTP(h, r) }
+		vfrun.Label("via-post-transport")
+	} else {
+		ex := build(s, c)
+		run = func(r Request) ([]string, []univ.Event, *graphql.Response, bool) { return runExecutor(s, ex, r) }
+	}
 	nAcc, nRej := 0, 0
 	for _, r := range c.Requests {
 		if r.Invalid == "" {
@@ -358,7 +429,7 @@ func check(c Case) *vfrun.Failure {
 	}
 	if c.Goroutines <= 1 {
 		for _, r := range c.Requests {
-			evs, ue, resp, rej := run(s, ex, r)
+			evs, ue, resp, rej := run(r)
 			vfrun.Eval()
 			if f := verify(s, c, r, evs, ue, resp, rej); f != nil {
 				return f
@@ -380,7 +451,7 @@ func check(c Case) *vfrun.Failure {
 				defer wg.Done()
 				for i := range c.Requests {
 					r := c.Requests[(i+g)%len(c.Requests)]
-					evs, ue, resp, rej := run(s, ex, r)
+					evs, ue, resp, rej := run(r)
 					results[g] = append(results[g], out{r, evs, ue, resp, rej})
 				}
 			}(g)
@@ -412,7 +483,7 @@ func check(c Case) *vfrun.Failure {
 
 // damage turns a valid request into a rejected one, by construction.
 func damage(t *rapid.T, r Request) Request {
-	kind := rapid.SampledFrom([]string{"parse", "unknown-field", "unknown-operation", "missing-argument", "variable-type", "fragment-cycle", "undefined-variable"}).Draw(t, "damage")
+	kind := rapid.SampledFrom([]string{"parse", "unknown-field", "unknown-operation", "missing-argument", "variable-type", "fragment-cycle", "undefined-variable", "required-variable-missing", "required-variable-missing", "required-variable-null"}).Draw(t, "damage")
 	r.Invalid = kind
 	switch kind {
 	case "parse":
@@ -427,6 +498,11 @@ func damage(t *rapid.T, r Request) Request {
 	case "variable-type":
 		r.Query, r.OpName = "query($n: Int!) { echo(n: $n) }", ""
 		r.Variables = map[string]any{"n": "not a number"}
+	case "required-variable-missing":
+		// the same operation a valid request of the pool uses, with no variables member at all
+		r.Query, r.OpName, r.Variables = "query($n: Int!) { echo(n: $n) }", "", nil
+	case "required-variable-null":
+		r.Query, r.OpName, r.Variables = "query($n: Int!) { echo(n: $n) }", "", map[string]any{"n": nil}
 	case "fragment-cycle":
 		r.Query, r.OpName, r.Variables = "{ a { ...X } } fragment X on A { id ...Y } fragment Y on A { ...X }", "", nil
 	case "undefined-variable":
@@ -464,6 +540,8 @@ func genCase(t *rapid.T, concurrent bool) Case {
 		}
 		pool = append(pool, r)
 	}
+	// a valid request that does carry the required variable (what a pooled decoder could leak)
+	pool = append(pool, Request{Query: "query($n: Int!) { echo(n: $n) }", Variables: map[string]any{"n": 5}})
 	for i := 0; i < nreq; i++ {
 		r := pool[rapid.IntRange(0, len(pool)-1).Draw(t, "which")]
 		if rapid.IntRange(0, 2).Draw(t, "damage?") == 0 {
@@ -473,6 +551,9 @@ func genCase(t *rapid.T, concurrent bool) Case {
 	}
 	if concurrent {
 		c.Goroutines = rapid.IntRange(2, 8).Draw(t, "goroutines")
+	}
+	if rapid.IntRange(0, 2).Draw(t, "via") == 0 {
+		c.Via = "post"
 	}
 	return c
 }
